@@ -11,11 +11,12 @@ sprouted from it and changed by generated deltas related as each law requires:
 
 Mergers: Merge3Merger, WeaveMerger, LCAMerger on 2a; Merge3Merger on git trees.  THIS is
 merged both committed and as a working tree with the delta uncommitted.  A quarter of the
-2a cases run on a criss-cross history whose common ancestors all have BASE's tree, so the
+cases run on a criss-cross history whose common ancestors all have BASE's tree, so the
 same laws are judged through Merge3Merger._entries_lca / _lca_multi_way.  The C18 law
 monitor is armed on the live _three_way / _lca_multi_way call sites during every merge.
 """
 import os
+import re
 import shutil
 
 from vf import gen, observe
@@ -24,8 +25,8 @@ ID = "C17"
 LEVEL = "exploration"
 TECHNIQUE = ("law oracles over observed tree snapshots (path/kind/bytes/exec/file-id, disk content, conflict list) of real merges of generated "
              "branch triples; C18 decision-law monitor armed on the live call sites")
-LEVEL_TEXT = ("for generated BASE trees and deltas related as each law requires, the working tree after a real merge (three merge types on 2a incl. criss-cross "
-              "histories, merge3 on git; THIS committed or uncommitted) equals the tree the law prescribes, with no conflicts and no helper files")
+LEVEL_TEXT = ("for generated BASE trees and deltas related as each law requires, the working tree after a real merge (three merge types on 2a, merge3 on git, "
+              "both incl. criss-cross histories; THIS committed or uncommitted) equals the tree the law prescribes, with no conflicts and no helper files")
 RULE = ("case = BASE tree (seed skeleton + 0-6 random ops) + law + deltas of 1-6 model-legal ops (add/edit/chmod/rename/remove/unversion/kind change/"
         "symlink/delete-on-disk) + format (2a / git) + history shape (plain / criss-cross) + THIS committed or not; every merger run is one evaluation; "
         "non-trivial = the law's delta(s) applied at least one op; distinct = (law, format, shape, merger, op-kind sequences, resulting tree hash)")
@@ -36,14 +37,20 @@ FLOORS = {"law:other=base": 20, "law:this=base": 20, "law:identical": 15, "law:d
           "oracle_conflicts": 100, "C18live_law_S_three_way": 200, "C18live_law_S_lca": 200, "live_call:three_way": 150, "live_call:lca_multi_way": 50}
 ASSUMPTIONS = [
     "the law's precondition is verified by observation (snapshots of BASE/THIS/OTHER) before the merge; cases whose generated deltas do not satisfy it are discarded",
-    "disjoint = every path touched by a delta lies strictly inside that side's own top-level directory",
+    "disjoint = every path touched by a delta lies strictly inside that side's own top-level directory; or (file-level flavour, 35 %) the deltas only "
+    "edit / chmod / add files and no path is changed on both sides",
     "criss-cross cases: both LCAs and the unique ancestor all have BASE's tree, so the laws are unambiguous about what BASE is",
     "git trees: directories are not versioned, so the disk comparison ignores directories there",
 ]
 
+# the file-level flavour of the disjoint law: content, exec bit, new files and symlinks only (no renames / removals / kind changes)
+W_FILES = {"mkfile": 4, "symlink": 1, "add": 6, "edit": 8, "chmod": 4}
 MERGERS = ("Merge3Merger", "WeaveMerger", "LCAMerger")
 LAWS = ("other=base", "this=base", "identical", "disjoint")
 SUFFIXES = (".BASE", ".THIS", ".OTHER", ".moved")
+
+# criss-cross histories on git trees too (the property names git trees and the lca entry walk alike)
+GIT_CRISS_CROSS = True
 
 _cur = [None]
 
@@ -83,7 +90,7 @@ def _op_paths(op):
     return [op[k] for k in ("path", "src", "dst") if k in op]
 
 
-def _delta(rng, wt, names, nops, weights, inside=None, idtag=""):
+def _delta(rng, wt, names, nops, weights, inside=None, idtag="", avoid=()):
     """Apply up to nops model-legal random ops (confined to the subtree `inside`); returns (ops, clean).
 
     idtag keeps the file ids of entries added on the two sides apart (the model numbers new ids from the
@@ -99,6 +106,8 @@ def _delta(rng, wt, names, nops, weights, inside=None, idtag=""):
         if op is None:
             continue
         if inside is not None and not all(p.startswith(inside + "/") for p in _op_paths(op)):
+            continue
+        if avoid and any(p in avoid for p in _op_paths(op)):
             continue
         if idtag and op["op"] == "add":
             op["id"] = idtag + op["id"]
@@ -256,11 +265,14 @@ def _case(ctx):
     fmt = "git" if rng.random() < 0.3 else "2a"
     git = fmt == "git"
     law = LAWS[ctx.index % 4] if rng.random() < 0.8 else rng.choice(LAWS)
-    criss = (not git) and rng.random() < 0.25
+    criss = (not git or GIT_CRISS_CROSS) and rng.random() < 0.25
     uncommitted = law != "this=base" and rng.random() < 0.45
     pointless_tip = rng.random() < 0.5  # the unchanged side: same revision as BASE, or a new revision with BASE's tree
+    by_files = law == "disjoint" and rng.random() < 0.35
     root = ctx.tmp("c17")
     log = {"law": law, "format": fmt, "criss_cross": criss, "this_uncommitted": uncommitted}
+    if law == "disjoint":
+        log["disjoint_by"] = "files" if by_files else "subtrees"
     ctx.info["case"] = log
 
     # ---- BASE and the two branches
@@ -304,6 +316,10 @@ def _case(ctx):
                 ctx.discard("identical: an op was refused half-way")
             _replay(owt, ops1)
             ops2 = ops1
+        elif by_files:
+            # disjoint sets of *files* anywhere in the tree: no structural ops, the second delta avoids the first one's paths
+            ops1, _ = _delta(rng, twt, names, n1, W_FILES, idtag="t-")
+            ops2, _ = _delta(rng, owt, names, n2, W_FILES, idtag="o-", avoid={p for o in ops1 for p in _op_paths(o)})
         else:
             log["A"], log["B"] = A, B
             ops1, _ = _delta(rng, twt, names, n1, w_this, inside=A, idtag="t-")
@@ -339,6 +355,11 @@ def _case(ctx):
         pre = this_snap == base_snap and _nodirs(this_disk) == _nodirs(_materialize(base_snap))
     elif law == "identical":
         pre = this_snap == other_snap
+    elif by_files:
+        allp = set(this_snap) | set(other_snap) | set(base_snap)
+        changed_o = {p for p in allp if other_snap.get(p) != base_snap.get(p)}
+        pre = (all(this_snap.get(p) == base_snap.get(p) for p in changed_o)           # no path changed on both sides
+               and all(this_disk.get(p) == base_disk.get(p) for p in changed_o))      # nor occupied by unversioned files of THIS
     else:
         pre = (all(this_snap.get(p) == base_snap.get(p) for p in set(this_snap) | set(base_snap) if not _inside(A, p))
                and all(other_snap.get(p) == base_snap.get(p) for p in set(other_snap) | set(base_snap) if not _inside(B, p))
@@ -351,6 +372,14 @@ def _case(ctx):
         want_tree, want_disk = this_snap, this_disk
     elif law == "this=base":
         want_tree, want_disk = other_snap, _materialize(other_snap)
+    elif by_files:
+        want_tree, want_disk = dict(this_snap), dict(this_disk)
+        for p in changed_o:
+            want_tree.pop(p, None)
+            want_disk.pop(p, None)
+            if p in other_snap:
+                want_tree[p] = other_snap[p]
+                want_disk[p] = other_snap[p][:3]
     else:
         want_tree = {p: v for p, v in this_snap.items() if not _inside(B, p)}
         want_tree.update({p: v for p, v in other_snap.items() if _inside(B, p)})
@@ -372,7 +401,7 @@ def _case(ctx):
         driver = "merge_from_branch" if rng.random() < 0.35 else "from_revision_ids"
         detail = dict(log, merger=mname, driver=driver)
         ctx.count("law:" + law)
-        ctx.hist("merge:%s:%s:%s" % (law, mname, fmt))
+        ctx.hist("merge:%s%s:%s:%s" % (law, "-files" if by_files else "", mname, fmt))
         try:
             cooked, _merger = _do_merge(wt, ob, other_rev, mt, driver, uncommitted)
         except PointlessMerge:
@@ -385,7 +414,7 @@ def _case(ctx):
         got_tree = observe.snap_tree(wt)
         got_disk = observe.snap_disk(mdir)
         confl = list(wt.conflicts())
-        tag = "%s:%s" % (law, "git" if git else ("lca" if criss else "bzr"))
+        tag = "%s:%s" % (law, ("git-lca" if criss else "git") if git else ("lca" if criss else "bzr"))
         ctx.count("oracle_conflicts")
         if confl or cooked:
             allc = list(confl) + list(cooked)
@@ -409,7 +438,7 @@ def _case(ctx):
         gd, wd = (got_disk, want_disk) if not git else (_nodirs(got_disk), _nodirs(want_disk))
         if gd != wd:
             extra = sorted(set(gd) - set(wd))
-            helpers = [p for p in extra if p.endswith(SUFFIXES) or "~" in p]
+            helpers = [p for p in extra if p.endswith(SUFFIXES) or re.search(r"\.~\d+~$", p)]
             what = "helper-files" if helpers else ("extra-files" if extra else ("missing-files" if set(wd) - set(gd) else "content"))
             ctx.fail("disk:%s:%s" % (tag, what), "law %s: disk after merge differs: %r" % (law, _diff(gd, wd)), detail)
         ctx.distinct("result-tree", sorted((p, repr(v)) for p, v in got_tree.items()))
